@@ -205,7 +205,7 @@ def run_driver(sub, items, profile="dev", shards=None, timeout=300, tag="run", e
     n = len(items)
     if n == 0:
         return []
-    shards = shards or max(2, NCPU // PART_N)
+    shards = shards or (NCPU if PART_N == 1 else max(3, 2 * NCPU // PART_N))
     shards = max(1, min(shards, n))
     enc = [json.dumps(x) for x in items]
     idx = [list(range(s, n, shards)) for s in range(shards)]
